@@ -40,14 +40,15 @@ fn cut(s: &str) -> String {
 enum Logical {
     /// not checked (does not serialize, legacy spelling, lookup gap)
     Skip,
-    /// canonical name, type the canonical descriptor declares (None = Enum), serialised type, known to db
-    Prop { canon: String, ser_ty: Option<VariantType>, known: bool },
+    /// canonical name, serialised type (None = Enum), known to db, the canonical descriptor's own type,
+    /// and the canonical name the reader files the serialised name under
+    Prop { canon: String, ser_ty: Option<VariantType>, known: bool, canon_ty: Option<VariantType>, readback: String },
 }
 
 fn logical(class: &str, name: &str) -> Logical {
     let db = rbx_reflection_database::get();
     match rbx_binary::verif::find_property_descriptors(db, class.into(), name.into()) {
-        None => Logical::Prop { canon: name.to_string(), ser_ty: None, known: false },
+        None => Logical::Prop { canon: name.to_string(), ser_ty: None, known: false, canon_ty: None, readback: name.to_string() },
         Some(d) => {
             let ser = match d.serialized {
                 Some(s) => s,
@@ -60,7 +61,15 @@ fn logical(class: &str, name: &str) -> Logical {
                 DataType::Value(t) => Some(*t),
                 _ => None,
             };
-            Logical::Prop { canon: d.canonical.name.to_string(), ser_ty, known: true }
+            let canon_ty = match &d.canonical.data_type {
+                DataType::Value(t) => Some(*t),
+                _ => None,
+            };
+            let readback = match rbx_binary::verif::find_property_descriptors(db, class.into(), ser.name.as_ref().into()) {
+                Some(b) => b.canonical.name.to_string(),
+                None => ser.name.to_string(),
+            };
+            Logical::Prop { canon: d.canonical.name.to_string(), ser_ty, known: true, canon_ty, readback }
         }
     }
 }
@@ -214,6 +223,7 @@ fn key_of(v: &Variant) -> String {
             _ => "content".into(),
         },
         Variant::Tags(_) => "tags-empty-member".into(),
+        Variant::MaterialColors(_) => "materialcolors-filled".into(),
         Variant::Attributes(_) => "attributes-normalised".into(),
         Variant::UniqueId(_) => "uniqueid-regenerated".into(),
         other => format!("value-{:?}", other.ty()).to_lowercase(),
@@ -228,12 +238,15 @@ pub struct Finding {
 struct Expect {
     /// canonical name -> expected value (Refs still as input labels / synthetic refs)
     values: BTreeMap<String, Variant>,
+    /// canonical name -> (type of the written value, name the reader returns it under)
+    info: BTreeMap<String, (VariantType, String)>,
     /// canonical names that are present but not checked
     unchecked: BTreeSet<String>,
 }
 
 fn expectations(n: &Node) -> Expect {
-    let mut by_canon: BTreeMap<String, Vec<(Variant, bool, Option<VariantType>)>> = BTreeMap::new();
+    let mut by_canon: BTreeMap<String, Vec<(Variant, bool, Option<VariantType>, Option<VariantType>, String)>> = BTreeMap::new();
+    let mut info = BTreeMap::new();
     let mut unchecked = BTreeSet::new();
     for (p, v) in &n.props {
         if p == "Name" {
@@ -254,8 +267,8 @@ fn expectations(n: &Node) -> Expect {
                     }
                 }
             }
-            Logical::Prop { canon, ser_ty, known } => {
-                by_canon.entry(canon).or_default().push((v.clone(), known, ser_ty));
+            Logical::Prop { canon, ser_ty, known, canon_ty, readback } => {
+                by_canon.entry(canon).or_default().push((v.clone(), known, ser_ty, canon_ty, readback));
             }
         }
     }
@@ -265,7 +278,7 @@ fn expectations(n: &Node) -> Expect {
             unchecked.insert(canon);
             continue;
         }
-        let (v, known, ser_ty) = &l[0];
+        let (v, known, ser_ty, canon_ty, readback) = &l[0];
         if matches!(v, Variant::EnumItem(_)) || !readme_type(v.ty()) {
             unchecked.insert(canon);
             continue;
@@ -276,14 +289,19 @@ fn expectations(n: &Node) -> Expect {
                 None => matches!(v, Variant::Enum(_)),
                 Some(t) => v.ty() == *t || (*t == VariantType::Color3uint8 && v.ty() == VariantType::Color3),
             };
-            if !ok {
+            // an alias spelling that carries the serialised representation of a differently typed canonical
+            // property (AttributesSerialize: BinaryString for Attributes) is returned re-typed: not checked
+            let retyped = canon_ty != ser_ty && !(*ser_ty == Some(VariantType::Color3uint8) && *canon_ty == Some(VariantType::Color3));
+            if !ok || retyped {
                 unchecked.insert(canon);
+                unchecked.insert(readback.clone());
                 continue;
             }
         }
+        info.insert(canon.clone(), (v.ty(), readback.clone()));
         values.insert(canon, norm_value(v, *known, *ser_ty));
     }
-    Expect { values, unchecked }
+    Expect { values, info, unchecked }
 }
 
 /// every way the decoded DOM differs from what the property permits
@@ -308,14 +326,19 @@ pub fn compare_roundtrip(f: &Forest, roots: &[u64], dom: &WeakDom) -> Vec<Findin
     let pos_of_label: HashMap<u64, usize> = exp_order.iter().enumerate().map(|(k, l)| (*l, k)).collect();
     let pos_of_ref: HashMap<Ref, usize> = dec_order.iter().enumerate().map(|(k, r)| (*r, k)).collect();
     // which canonical properties does each class carry among the written instances
-    let mut class_props: HashMap<&str, BTreeSet<String>> = HashMap::new();
+    let mut class_props: HashMap<&str, BTreeMap<String, Option<VariantType>>> = HashMap::new();
     let mut expects: Vec<Expect> = Vec::new();
     for l in &exp_order {
         let n = f.node(*l).unwrap();
         let e = expectations(n);
         let s = class_props.entry(n.class.as_str()).or_default();
-        s.extend(e.values.keys().cloned());
-        s.extend(e.unchecked.iter().cloned());
+        for (k, (t, rb)) in &e.info {
+            s.entry(k.clone()).or_insert(Some(*t));
+            s.entry(rb.clone()).or_insert(Some(*t));
+        }
+        for k in &e.unchecked {
+            s.insert(k.clone(), None);
+        }
         expects.push(e);
     }
     let db = rbx_reflection_database::get();
@@ -358,8 +381,14 @@ pub fn compare_roundtrip(f: &Forest, roots: &[u64], dom: &WeakDom) -> Vec<Findin
             });
             forest::value_with_labels(&v2)
         };
+        let mut returned_under: BTreeSet<String> = BTreeSet::new();
         for (canon, ev) in &e.values {
-            match y.properties.get(&canon.as_str().into()) {
+            let readback = &e.info[canon].1;
+            returned_under.insert(readback.clone());
+            if readback != canon {
+                out.push(Finding { key: "canonical-name-changes".into(), text: format!("node {l} {}.{canon}: its serialized name is read back as the canonical property {readback}", n.class) });
+            }
+            match y.properties.get(&readback.as_str().into()) {
                 None => out.push(Finding { key: format!("missing-{}", key_of(ev)), text: format!("node {l} {}.{canon}: written {}, absent after reading back", n.class, cut(&show_exp(ev))) }),
                 Some(dv) => {
                     let a = show_exp(ev);
@@ -372,15 +401,19 @@ pub fn compare_roundtrip(f: &Forest, roots: &[u64], dom: &WeakDom) -> Vec<Findin
         }
         for (q, dv) in y.properties.iter() {
             let q = q.to_string();
-            if e.values.contains_key(&q) || e.unchecked.contains(&q) {
+            if returned_under.contains(&q) || e.unchecked.contains(&q) {
                 continue;
             }
             // gained: permitted iff a same-class written instance carried it and the value is the default
-            let carried = class_props.get(n.class.as_str()).map(|s| s.contains(&q)).unwrap_or(false);
-            if !carried {
+            let carrier = class_props.get(n.class.as_str()).and_then(|s| s.get(&q)).copied();
+            if carrier.is_none() {
                 out.push(Finding { key: "gained-foreign".into(), text: format!("node {l} {}.{q}: gained `{}` although no written {} carried it", n.class, cut(&show_dec(dv)), n.class) });
                 continue;
             }
+            let carrier_ty = match carrier {
+                Some(Some(t)) => t,
+                _ => continue, // carried only by an unchecked spelling
+            };
             let (known, ser_ty) = match logical(&n.class, &q) {
                 Logical::Prop { known, ser_ty, .. } => (known, ser_ty),
                 Logical::Skip => continue,
@@ -388,7 +421,7 @@ pub fn compare_roundtrip(f: &Forest, roots: &[u64], dom: &WeakDom) -> Vec<Findin
             let dbdef = db.classes.get(n.class.as_str()).and_then(|c| db.find_default_property(c, &q)).cloned();
             let expected = match dbdef {
                 Some(d) => Some(norm_value(&d, known, ser_ty)),
-                None => neutral(dv.ty()),
+                None => neutral(carrier_ty).map(|d| norm_value(&d, known, ser_ty)),
             };
             match expected {
                 Some(x) => {
@@ -472,6 +505,32 @@ fn describe(e: &Enc) -> String {
     }
 }
 
+/// which chunk of an uncompressed file holds `offset` (name, and the property name of a PROP chunk)
+fn chunk_at(b: &[u8], offset: usize) -> String {
+    let mut pos = 32;
+    if offset < 32 {
+        return "header".into();
+    }
+    while pos + 16 <= b.len() {
+        let name = String::from_utf8_lossy(&b[pos..pos + 4]).to_string();
+        let clen = u32::from_le_bytes([b[pos + 4], b[pos + 5], b[pos + 6], b[pos + 7]]) as usize;
+        let len = u32::from_le_bytes([b[pos + 8], b[pos + 9], b[pos + 10], b[pos + 11]]) as usize;
+        let body = if clen == 0 { len } else { clen };
+        let end = pos + 16 + body;
+        if offset < end {
+            if name == "PROP" && clen == 0 && pos + 24 <= b.len() {
+                let nl = u32::from_le_bytes([b[pos + 20], b[pos + 21], b[pos + 22], b[pos + 23]]) as usize;
+                if pos + 24 + nl + 1 <= b.len() {
+                    return format!("PROP {} type {:#x}", String::from_utf8_lossy(&b[pos + 24..pos + 24 + nl]), b[pos + 24 + nl]);
+                }
+            }
+            return name;
+        }
+        pos = end;
+    }
+    "?".into()
+}
+
 fn seed_of(id: &str) -> u64 {
     id.bytes().fold(0xcbf29ce484222325u64, |h, b| (h ^ b as u64).wrapping_mul(0x100000001b3))
 }
@@ -508,7 +567,25 @@ pub fn c07(id: &str, f: &Forest, r: &[(CompressionType, Enc)], out: &mut Vec<Str
                 match &e2 {
                     Enc::Bytes(b2) => {
                         if b2 != b {
-                            out.push(format!("{id} C07 resave-differs comp={c:?}: save(load(save d)) has {} bytes, save d has {} bytes, first difference at offset {}", b2.len(), b.len(), b.iter().zip(b2.iter()).position(|(x, y)| x != y).unwrap_or(b.len().min(b2.len()))));
+                            // locate the difference on the uncompressed rendering of both DOMs
+                            let (u1, u2) = (r.iter().find(|(k, _)| *k == CompressionType::None).map(|(_, e)| e.clone()), encode(&d1, d1.root().children(), CompressionType::None));
+                            let mut wher = String::from("?");
+                            if let (Some(Enc::Bytes(x)), Enc::Bytes(y)) = (u1, u2) {
+                                let off = x.iter().zip(y.iter()).position(|(p, q)| p != q).unwrap_or(x.len().min(y.len()));
+                                wher = chunk_at(&x, off);
+                            }
+                            let suffix = if wher.starts_with("PROP Tags") {
+                                "tags"
+                            } else if wher.starts_with("PROP UniqueId") {
+                                "uniqueid"
+                            } else if wher.ends_with("0x22") {
+                                "content"
+                            } else if wher.starts_with("PROP xmlRead_") {
+                                "renamed"
+                            } else {
+                                "other"
+                            };
+                            out.push(format!("{id} C07 resave-differs-{suffix} comp={c:?}: save(load(save d)) has {} bytes, save d has {} bytes; first differing chunk (uncompressed): {wher}", b2.len(), b.len()));
                         }
                         if let Dec::Dom(d2) = decode(b2) {
                             let e3 = encode(&d2, d2.root().children(), *c);
